@@ -54,6 +54,7 @@ func (fr *Frame) call(v ssa.Value, cc *ssa.CallCommon, st *State, ins ssa.Instru
 	if cc.IsInvoke() {
 		recv := fr.term(cc.Value, st)
 		fr.nopanic(st, "nil", pos, not(app("=", recv.S, "0")), "method call on nil interface")
+		fr.curArgVals = append([]ssa.Value{cc.Value}, cc.Args...)
 		args := []Term{recv}
 		for _, a := range cc.Args {
 			args = append(args, fr.term(a, st))
@@ -89,6 +90,7 @@ func (fr *Frame) call(v ssa.Value, cc *ssa.CallCommon, st *State, ins ssa.Instru
 	for _, a := range cc.Args {
 		argVals = append(argVals, a)
 	}
+	fr.curArgVals = argVals
 	termArgs := func() []Term {
 		if args == nil {
 			for _, a := range cc.Args {
@@ -152,6 +154,7 @@ func (fr *Frame) call(v ssa.Value, cc *ssa.CallCommon, st *State, ins ssa.Instru
 					continue
 				}
 				c.obligation("at-call", ac.C.Label, pos, "before the call to "+shortFuncName(name)+": "+ac.C.Src, st.reach, g, ac.C.Props)
+				st.reach = c.define("reach", "Bool", and(st.reach, g))
 			}
 		}
 	}
@@ -423,6 +426,7 @@ func bindResults(vars map[string]Term, sig *types.Signature, results []Term) {
 
 func (fr *Frame) applyContract(fc *FuncContract, callee *ssa.Function, sig *types.Signature, args []Term, st *State, pos token.Pos, v ssa.Value, name string, invoke bool) {
 	c := fr.c
+	argVals := fr.curArgVals
 	vars := c.contractVars(fc, callee, sig, args, invoke)
 	// receiver nil check for pointer methods is the callee's business (its requires), but a nil
 	// receiver of a method that dereferences it would panic inside the callee.
@@ -495,6 +499,37 @@ func (fr *Frame) applyContract(fc *FuncContract, callee *ssa.Function, sig *type
 	for k, t := range en.vars {
 		post.vars[k] = t
 	}
+	// slice parameters whose contents the callee overwrites
+	if len(fc.Writes) > 0 && argVals != nil {
+		c.ghostOld = map[string]Term{}
+		for _, wname := range fc.Writes {
+			t, ok := en.vars[wname]
+			if !ok || !c.ss.IsSeq(t.Sort) {
+				c.errorf("%s: writes %s of %s: no such slice parameter", fr.fn.Name(), wname, short)
+				continue
+			}
+			// which argument?
+			var av ssa.Value
+			for i := range argVals {
+				if i < len(args) && args[i].S == t.S {
+					av = argVals[i]
+				}
+			}
+			nw := c.freshConst("written", t.Sort)
+			c.emit(fmt.Sprintf("(assert (= (%s.len %s) (%s.len %s)))", t.Sort, nw, t.Sort, t.S))
+			post.vars[wname] = Term{nw, t.Sort, t.Ty}
+			c.ghostOld[wname] = t
+			if av != nil {
+				key := "sl:" + fr.tag + av.Name()
+				c.heapSort[key] = string(t.Sort)
+				c.heapSet(st, key, nw)
+				if lv, ok := fr.prov[av]; ok && fr.provValid(av, st) {
+					fr.store(lv, st, nw)
+					fr.provStamp(av, st)
+				}
+			}
+		}
+	}
 	bindResults(post.vars, sig, results)
 	for _, e := range fc.Ensures {
 		g, err := post.EvalBool(e.E)
@@ -504,6 +539,7 @@ func (fr *Frame) applyContract(fc *FuncContract, callee *ssa.Function, sig *type
 		}
 		c.assume(st.reach, g)
 	}
+	c.ghostOld = nil
 	if fc.Defines != "" && len(results) == 1 {
 		// result == spec(args...): the function is pure and deterministic (its frame is proved), so its
 		// result is a function of its arguments; the spec function is that function's name.
@@ -659,6 +695,7 @@ func (fr *Frame) recursionObligation(callee *ssa.Function, cc *ssa.CallCommon, s
 	if len(c.fc.Measure) == 0 || fc2 == nil || len(fc2.Measure) != len(c.fc.Measure) {
 		o := c.obligation("rec-dec", "", pos, "", st.reach, "false", nil)
 		o.Note = "call to " + short + " can re-enter " + c.fnName() + " and no decreasing measure is given (unbounded recursion)"
+		c.continueAfterFalse(st)
 		return
 	}
 	var args []Term
@@ -687,6 +724,7 @@ func (fr *Frame) recursionObligation(callee *ssa.Function, cc *ssa.CallCommon, s
 		}
 	}
 	c.obligation("rec-dec", "", pos, "", st.reach, goal, nil).Note = "measure decreases at call to " + short
+	st.reach = c.define("reach", "Bool", and(st.reach, goal))
 }
 
 // mapCard declares the cardinality function of map domains over key sort ks, with the axioms needed
